@@ -65,7 +65,18 @@ structure ServerObs where
   respStream : Bool
   req : Bytes
   resp : Bytes
+  /-- the message types in the signature of the server trait method the arm forwards to -/
+  traitReq : Bytes
+  traitResp : Bytes
 deriving DecidableEq, Repr
+
+/-- Where the Rust type of a message is to be found, written without looking at the generator:
+a message compiled into the generated tree (`here`) is named relative to the module the
+service code is placed in — `<proto_path>::<path prost gives relative to the package
+module>`; a message that lives elsewhere (prost-types, an extern crate given by `extern_path`,
+a Rust built-in such as `()`) is named exactly as prost names it. -/
+def typePath (protoPath : Bytes) (here : Bool) (rust : Bytes) : Bytes :=
+  if here then protoPath ++ [58, 58] ++ rust else rust
 
 /-- One client method is right for a method definition (`svc` = expected Service-Name). -/
 def clientOk (svc : Bytes) (m : MethodDef) (c : ClientObs) : Bool :=
@@ -80,7 +91,7 @@ def serverOk (svc : Bytes) (m : MethodDef) (a : ServerObs) : Bool :=
   a.call == kind m.clientStreaming m.serverStreaming &&
   a.svcTrait == kind m.clientStreaming m.serverStreaming &&
   a.reqStream == m.clientStreaming && a.respStream == m.serverStreaming &&
-  a.req == m.input && a.resp == m.output
+  a.req == m.input && a.resp == m.output && a.traitReq == m.input && a.traitResp == m.output
 
 def all₂ {α β} (p : α → β → Bool) : List α → List β → Bool
   | [], [] => true
@@ -91,7 +102,8 @@ def all₂ {α β} (p : α → β → Bool) : List α → List β → Bool
 reference to the definition). -/
 def sidesAgree (cs : List ClientObs) (ss : List ServerObs) : Bool :=
   all₂ (fun c a => c.path == a.literal && c.call == a.call && c.reqStream == a.reqStream &&
-    c.respStream == a.respStream && c.req == a.req && c.resp == a.resp) cs ss
+    c.respStream == a.respStream && c.req == a.req && c.resp == a.resp &&
+    c.req == a.traitReq && c.resp == a.traitResp) cs ss
 
 /-- The whole predicate.  `pkgShown`: the package as it is meant to appear in names (the
 definition's package, or nothing when the user asked for `emit_package(false)`). -/
